@@ -16,8 +16,16 @@ func newEnumItem(b jbytes.Bytes) enumItemValue {
 	if t == jjson.TypeString {
 		b = b.Unquote()
 	}
+	value := b.String()
+	if t == jjson.TypeInteger || t == jjson.TypeFloat {
+		// Numbers are compared by their normalised decimal expansion: 1.5 and
+		// 1.50, 0 and -0 are the same value.
+		if n, err := jjson.NewNumber(b); err == nil {
+			value = n.String()
+		}
+	}
 	return enumItemValue{
-		value:    b.String(),
+		value:    value,
 		jsonType: t,
 	}
 }
